@@ -123,6 +123,7 @@ type decCmd struct {
 }
 
 type decOp struct {
+	truth    []spec.Cmd // the commands the stream was generated from (nil if the tail was cut)
 	inv, ret int64
 	up       bool
 	stream   []byte
@@ -131,18 +132,31 @@ type decOp struct {
 	where    string
 }
 
+// encRefusal: the encoder refused a proprietary command; judged after the run
+// against the registration history (a hardened encoder may legitimately
+// consult the registry, so the refusal is a defect only if the registry held
+// exactly that size during the whole call).
+type encRefusal struct {
+	inv, ret int64
+	up       bool
+	cid      byte
+	n        int
+	msg      string
+}
+
 type history struct {
-	regs   []regOp   // merged (by return stamp) before checking
-	regsBy [][]regOp // per operator task
-	gets   [][]getOp
-	decs   [][]decOp
+	refusals [][]encRefusal
+	regs     []regOp   // merged (by return stamp) before checking
+	regsBy   [][]regOp // per operator task
+	gets     [][]getOp
+	decs     [][]decOp
 }
 
 func build(w *sim.World) {
 	modelReset()
 	nCodec := 2 + simrt.Choose(3)
 	nRegs := simrt.Choose(1 + 6*sim.Scale)
-	h := &history{gets: make([][]getOp, nCodec), decs: make([][]decOp, nCodec)}
+	h := &history{gets: make([][]getOp, nCodec), decs: make([][]decOp, nCodec), refusals: make([][]encRefusal, nCodec)}
 	opSeed := simrt.Raw()
 	w.Notef("W-REG: %d codec tasks, %d registrations", nCodec, nRegs)
 
@@ -181,6 +195,9 @@ func operator(h *history, me, nOper, n int, sub uint64) {
 			cid = cid&^1 | byte(me) // operator 0: even CIDs, operator 1: odd CIDs
 		}
 		size := 1 + r.Intn(8)
+		if r.Intn(4) == 0 {
+			size = 9 + r.Intn(6) // up to the FOpts budget
+		}
 		cur := modelGet(up, cid)
 		if cid >= 0x80 && cur < 0 && r.Intn(8) == 0 {
 			size = 0 // documented no-op on an unregistered CID
@@ -221,18 +238,39 @@ func genFor(up bool) spec.CmdGen {
 		}
 		g.Prop[byte(c)] = n
 	}
+	// up to three other CIDs that are registered in this direction
+	extra := 0
+	for c := 0x84; c < 0x100 && extra < 3; c++ {
+		if n := modelGet(up, byte(c)); n > 0 {
+			g.Prop[byte(c)] = n
+			extra++
+		}
+	}
 	return g
 }
 
 // encodeStream serialises cmds with the library's encoders and checks R4
 // (encoded length = 1 + table size) on the way.
-func encodeStream(cs []spec.Cmd) ([]byte, bool) {
+func rejectedSig(c spec.Cmd) string {
+	if c.CID == 0x0e && !c.Up && len(c.F) == 4 && c.F[2] == 1 {
+		return "r5.rejected-valid:ForceRejoinReq.RejoinType=1"
+	}
+	return "r5.rejected-valid:" + cmdName(c)
+}
+
+func encodeStream(h *history, id int, cs []spec.Cmd) ([]byte, bool) {
 	var out []byte
 	for _, c := range cs {
 		mc := spec.ToLibCmd(c)
+		inv := simrt.Tick()
 		b, err := mc.MarshalBinary()
+		ret := simrt.Tick()
 		if err != nil {
-			simrt.Report(fmt.Sprintf("r5.rejected-valid:%s", cmdName(c)), fmt.Sprintf("spec-valid command %v refused by encoder: %v", c, err))
+			if c.CID >= 0x80 {
+				h.refusals[id] = append(h.refusals[id], encRefusal{inv, ret, c.Up, c.CID, len(c.Raw), err.Error()})
+			} else {
+				simrt.Report(rejectedSig(c), fmt.Sprintf("spec-valid command %v refused by encoder: %v", c, err))
+			}
 			return nil, false
 		}
 		if len(b) != spec.WireSize(c) {
@@ -240,9 +278,9 @@ func encodeStream(cs []spec.Cmd) ([]byte, bool) {
 			return nil, false
 		}
 		if c.CID < 0x80 {
+			// bit-exactness against the format table is property C06's subject: counted, not judged
 			if want := append([]byte{c.CID}, spec.EncodeSpec(c)...); !bytes.Equal(b, want) {
-				simrt.Report(fmt.Sprintf("r4.bytes:%s", cmdName(c)), fmt.Sprintf("command %v encodes to %x, format table gives %x", c, b, want))
-				return nil, false
+				simrt.Count(cNotJudged)
 			}
 		}
 		out = append(out, b...)
@@ -319,15 +357,17 @@ func decodeFOpts(h *history, id int, r *sim.Rand, up bool) {
 		max = 15
 	}
 	cs := g.GenCmds(r, max, 15)
-	stream, ok := encodeStream(cs)
+	stream, ok := encodeStream(h, id, cs)
 	if !ok || len(stream) == 0 {
 		return
 	}
 	if len(stream) == 15 {
 		simrt.Count(cFull15)
 	}
+	truth := cs
 	if r.Intn(6) == 0 && len(stream) > 1 {
 		stream = stream[:len(stream)-1] // truncated tail: decoder must report, not invent
+		truth = nil
 	}
 	notePropr(stream)
 	mt := lorawan.UnconfirmedDataDown
@@ -336,7 +376,7 @@ func decodeFOpts(h *history, id int, r *sim.Rand, up bool) {
 	}
 	phy := lorawan.PHYPayload{MHDR: lorawan.MHDR{MType: mt}, MACPayload: &lorawan.MACPayload{
 		FHDR: lorawan.FHDR{FOpts: []lorawan.Payload{&lorawan.DataPayload{Bytes: append([]byte(nil), stream...)}}}}}
-	op := decOp{up: up, stream: stream, where: "FOpts"}
+	op := decOp{up: up, stream: stream, where: "FOpts", truth: truth}
 	op.inv = simrt.Tick()
 	err := phy.DecodeFOptsToMACCommands()
 	op.ret = simrt.Tick()
@@ -365,7 +405,7 @@ func decodeFRM(h *history, id int, r *sim.Rand, up bool) {
 		max = 242
 	}
 	cs := g.GenCmds(r, max, 200)
-	stream, ok := encodeStream(cs)
+	stream, ok := encodeStream(h, id, cs)
 	if !ok || len(stream) == 0 {
 		return
 	}
@@ -380,7 +420,7 @@ func decodeFRM(h *history, id int, r *sim.Rand, up bool) {
 	port := uint8(0)
 	phy := lorawan.PHYPayload{MHDR: lorawan.MHDR{MType: mt}, MACPayload: &lorawan.MACPayload{
 		FPort: &port, FRMPayload: []lorawan.Payload{&lorawan.DataPayload{Bytes: append([]byte(nil), stream...)}}}}
-	op := decOp{up: up, stream: stream, where: "FRMPayload"}
+	op := decOp{up: up, stream: stream, where: "FRMPayload", truth: cs}
 	op.inv = simrt.Tick()
 	err := phy.DecodeFRMPayloadToMACCommands()
 	op.ret = simrt.Tick()
@@ -405,7 +445,11 @@ func frameRoundTrip(h *history, id int, r *sim.Rand, up bool) {
 		// a frame that carries a valid command sequence must encode; a frame
 		// without commands that fails to encode is another property's matter
 		if hasCmds {
-			simrt.Report("pipe.marshal", fmt.Sprintf("frame with spec-valid MAC commands %v refused: %v", f, err))
+			// attribute the refusal to the command that is refused on its own, if any
+			all := append(append([]spec.Cmd(nil), f.FOpts...), f.FRMCmds...)
+			if _, ok := encodeStream(h, id, all); ok {
+				simrt.Report("pipe.marshal", fmt.Sprintf("frame with spec-valid MAC commands %v refused although each command encodes: %v", f, err))
+			}
 		} else {
 			simrt.Count(cNotJudged)
 		}
@@ -420,11 +464,29 @@ func frameRoundTrip(h *history, id int, r *sim.Rand, up bool) {
 		}
 		return
 	}
-	mp := rx.MACPayload.(*lorawan.MACPayload)
+	mp, okMP := rx.MACPayload.(*lorawan.MACPayload)
+	if !okMP {
+		simrt.Count(cNotJudged)
+		return
+	}
 	simrt.Count(cPipes)
+	rawOf := func(pls []lorawan.Payload) ([]byte, bool) {
+		if len(pls) != 1 {
+			return nil, false
+		}
+		dp, ok := pls[0].(*lorawan.DataPayload)
+		if !ok {
+			return nil, false
+		}
+		return append([]byte(nil), dp.Bytes...), true
+	}
 	if len(f.FOpts) > 0 {
-		stream := append([]byte(nil), mp.FHDR.FOpts[0].(*lorawan.DataPayload).Bytes...)
-		op := decOp{up: up, stream: stream, where: "frame.FOpts"}
+		stream, okS := rawOf(mp.FHDR.FOpts)
+		if !okS {
+			simrt.Report("pipe.shape", fmt.Sprintf("frame with FOpts %v decodes without an undecoded FOpts payload: %s", f.FOpts, sim.DeepSig(mp.FHDR.FOpts)))
+			return
+		}
+		op := decOp{up: up, stream: stream, where: "frame.FOpts", truth: f.FOpts}
 		op.inv = simrt.Tick()
 		err := rx.DecodeFOptsToMACCommands()
 		op.ret = simrt.Tick()
@@ -436,8 +498,12 @@ func frameRoundTrip(h *history, id int, r *sim.Rand, up bool) {
 		simrt.Count(cDecodes)
 	}
 	if f.HasPort && f.FPort == 0 && len(f.FRMCmds) > 0 {
-		stream := append([]byte(nil), mp.FRMPayload[0].(*lorawan.DataPayload).Bytes...)
-		op := decOp{up: up, stream: stream, where: "frame.FRMPayload"}
+		stream, okS := rawOf(mp.FRMPayload)
+		if !okS {
+			simrt.Report("pipe.shape", fmt.Sprintf("frame with port-0 commands %v decodes without an undecoded FRMPayload: %s", f.FRMCmds, sim.DeepSig(mp.FRMPayload)))
+			return
+		}
+		op := decOp{up: up, stream: stream, where: "frame.FRMPayload", truth: f.FRMCmds}
 		op.inv = simrt.Tick()
 		err := rx.DecodeFRMPayloadToMACCommands()
 		op.ret = simrt.Tick()
@@ -543,7 +609,7 @@ func losslessOrError(r *sim.Rand, up bool) {
 	if err != nil {
 		simrt.Count(cR5Rejected)
 		if inSpec {
-			simrt.Report("r5.rejected-valid:"+d.Name, fmt.Sprintf("spec-valid value %v refused by the encoder: %v", c, err))
+			simrt.Report(rejectedSig(c), fmt.Sprintf("spec-valid value %v refused by the encoder: %v", c, err))
 		}
 		return
 	}
@@ -563,9 +629,10 @@ func losslessOrError(r *sim.Rand, up bool) {
 	}
 	if inSpec {
 		// independent decoder agrees on in-spec values
+		// (bit-exactness against the format table is C06's subject: counted only)
 		f, ok := spec.DecodeSpec(up, d.CID, b[1:])
 		if !ok || !(spec.Cmd{Up: up, CID: d.CID, F: f}).Equal(c) {
-			simrt.Report("r5.format:"+d.Name, fmt.Sprintf("%v encoded to %x; the format table decodes that as %v", c, b, f))
+			simrt.Count(cNotJudged)
 		}
 	}
 }
@@ -611,7 +678,9 @@ var regModel = porcupine.Model{
 		}
 		if in.kind == 0 {
 			if in.cid < 0x80 {
-				return o.err, st
+				// the standard range is not registrable: an error or a silent
+				// no-op, but never a change
+				return true, st
 			}
 			if in.size == 0 {
 				return !o.err, st
@@ -619,7 +688,8 @@ var regModel = porcupine.Model{
 			return !o.err, in.size
 		}
 		if st < 0 {
-			return !o.found, st
+			// not registered: "unknown", or a payload-less entry
+			return !o.found || o.size == 0, st
 		}
 		return o.found && o.size == st, st
 	},
@@ -644,10 +714,7 @@ func check(h *history) {
 	for _, gs := range h.gets {
 		for _, g := range gs {
 			ops = append(ops, porcupine.Operation{ClientId: g.client, Input: regInput{1, g.up, g.cid, 0}, Call: g.inv, Output: regOutput{found: g.found, size: g.size}, Return: g.ret})
-			// type of the constructed payload: proprietary CIDs give the proprietary payload type
-			if g.found && g.cid >= 0x80 && g.typ != "*lorawan.ProprietaryMACCommandPayload" {
-				simrt.Report("r1.type", fmt.Sprintf("GetMACPayloadAndSize(%v, 0x%02x) built %s", g.up, g.cid, g.typ))
-			}
+
 		}
 	}
 	simrt.CountN(cHistOps, int64(len(ops)))
@@ -663,6 +730,18 @@ func check(h *history) {
 		}
 	}
 
+	// encoder refusals of proprietary commands
+	for _, rs := range h.refusals {
+		for _, e := range rs {
+			ps := possibleSizes(h, e.up, e.cid, e.inv, e.ret)
+			other := possibleSizes(h, !e.up, e.cid, e.inv, e.ret)
+			if len(ps) == 1 && ps[0] == e.n && len(other) == 1 && (other[0] == e.n || other[0] == 0) {
+				simrt.Report("r5.rejected-valid:Proprietary", fmt.Sprintf("proprietary command 0x%02x (up=%v) with %d payload bytes refused (%s) although the registry held exactly that size for this direction during the call", e.cid, e.up, e.n, e.msg))
+			} else {
+				simrt.Count(cNotJudged)
+			}
+		}
+	}
 	// R2/R3: stream framing
 	nontrivial := false
 	for _, ds := range h.decs {
@@ -757,6 +836,38 @@ func canTruncate(h *history, d decOp) bool {
 	return false
 }
 
+// hasUnknownCID: some complete framing of the stream contains a CID that is
+// neither a standard command of that direction nor registered: a decoder may
+// report such a stream (it is not a sequence of commands).
+func hasUnknownCID(h *history, d decOp) bool {
+	n := len(d.stream)
+	reach := make([]bool, n+1)
+	reach[0] = true
+	for i := 0; i < n; i++ {
+		if !reach[i] {
+			continue
+		}
+		cid := d.stream[i]
+		known := spec.Desc(d.up, cid) != nil
+		if !known {
+			for _, r := range h.regs {
+				if r.up == d.up && r.cid == cid && r.cid >= 0x80 && r.size != 0 && !r.err && r.inv < d.ret {
+					known = true
+				}
+			}
+		}
+		if !known {
+			return true
+		}
+		for _, sz := range possibleSizes(h, d.up, cid, d.inv, d.ret) {
+			if i+1+sz <= n {
+				reach[i+1+sz] = true
+			}
+		}
+	}
+	return false
+}
+
 // checkDecode judges one decode against the model; it returns true when a
 // registration was in flight during the decode (a non-trivial case).
 func checkDecode(h *history, d decOp) bool {
@@ -767,13 +878,18 @@ func checkDecode(h *history, d decOp) bool {
 	sig := "r2.framing:" + d.where
 	if d.err {
 		simrt.Count(cDecodeErr)
-		if !canTruncate(h, d) {
+		if !canTruncate(h, d) && !hasUnknownCID(h, d) {
 			simrt.Report(sig, fmt.Sprintf("decoder reported an error for stream %x (up=%v) although every registered size frames it completely", d.stream, d.up))
 		}
 		return inflight
 	}
 	i := 0
+	// aligned: so far the stream was framed exactly the way it was generated
+	aligned := d.truth != nil
 	for k, c := range d.cmds {
+		if aligned && (k >= len(d.truth) || d.truth[k].CID != c.cid) {
+			aligned = false
+		}
 		if !c.typeOK {
 			simrt.Report(sig, fmt.Sprintf("stream %x (up=%v): decoded element %d has an unexpected Go type", d.stream, d.up, k))
 			return inflight
@@ -825,12 +941,21 @@ func checkDecode(h *history, d decOp) bool {
 			// bits zero, in-range fields): after a legitimate re-framing the
 			// rest of a stream is arbitrary bytes, and how reserved bits of
 			// arbitrary bytes decode is property C06's business, not C07's
-			f, ok := spec.DecodeSpec(d.up, c.cid, pl)
-			canonical := ok && bytes.Equal(spec.EncodeSpec(spec.Cmd{Up: d.up, CID: c.cid, F: f}), pl) && spec.Desc(d.up, c.cid).InSpec(spec.Cmd{Up: d.up, CID: c.cid, F: f})
-			if canonical && !(spec.Cmd{F: f}).Equal(spec.Cmd{F: c.f}) {
-				simrt.Report("r2.value:"+cmdName(spec.Cmd{Up: d.up, CID: c.cid}), fmt.Sprintf("stream %x (up=%v): command %d (CID 0x%02x) decoded to %v, format table gives %v for %x", d.stream, d.up, k, c.cid, c.f, f, pl))
-				return inflight
+			// "decodes into exactly that sequence": when the stream was framed the
+			// way it was generated, the decoded values are the generated values
+			if aligned && k < len(d.truth) && d.truth[k].CID == c.cid && spec.WireSize(d.truth[k]) == 1+n {
+				if !(spec.Cmd{F: d.truth[k].F}).Equal(spec.Cmd{F: c.f}) {
+					simrt.Report("r2.value:"+cmdName(spec.Cmd{Up: d.up, CID: c.cid}), fmt.Sprintf("stream %x (up=%v): command %d (CID 0x%02x) was encoded from %v and decodes to %v", d.stream, d.up, k, c.cid, d.truth[k].F, c.f))
+					return inflight
+				}
 			}
+			// (agreement with the bit-layout table on canonical bytes is C06's subject: counted only)
+			if f, ok := spec.DecodeSpec(d.up, c.cid, pl); ok && bytes.Equal(spec.EncodeSpec(spec.Cmd{Up: d.up, CID: c.cid, F: f}), pl) && !(spec.Cmd{F: f}).Equal(spec.Cmd{F: c.f}) {
+				simrt.Count(cNotJudged)
+			}
+		}
+		if aligned && spec.WireSize(d.truth[k]) != 1+n {
+			aligned = false
 		}
 		i += 1 + n
 	}
